@@ -190,7 +190,11 @@ def run_case(case):
     sizes = [n] if rng.random() < 0.4 else gen.split_sizes(rng, n, kmax=3)
     kseq = [int(v) for v in rng.integers(0, 2, len(sizes) + 4)]
     spec['partitions'] = declared
-    info.update(declared=declared[:12], ddt=ddt, sizes=sizes)
+    if rng.random() < 0.4:
+        ok_dt = [d for d in ('uint8', 'uint16', 'int16', 'uint32', 'int64') if min(declared) >= np.iinfo(d).min and max(declared) <= np.iinfo(d).max]
+        spec['partitions_as'] = ok_dt[int(rng.integers(len(ok_dt)))]
+        t.count('class_list_as_ndarray')
+    info.update(declared=declared[:12], ddt=ddt, sizes=sizes, class_list_as=spec.get('partitions_as', 'list'))
     base_obj, base = _run(spec, traces, data, sizes, kseq)
     scale = None
     if name in ('anova', 'nicv', 'snr'):
